@@ -1222,7 +1222,11 @@ class Module(ABC):
             trainables_and_inds = self._filter_trainables(is_viewed=False)
             self.base.indices_set_by_trainables = trainables_and_inds[0]
             self.base.trainable_params = trainables_and_inds[1]
-            self.base.num_trainable_params -= self.num_trainable_params
+            # Shared parameters which are only partially in view are kept (for the rest of
+            # their group), so the number of parameters is recounted, not subtracted.
+            self.base.num_trainable_params = sum(
+                len(next(iter(p.values()))) for p in self.base.trainable_params
+            )
         else:
             self.base.indices_set_by_trainables = []
             self.base.trainable_params = []
